@@ -1,0 +1,8 @@
+//go:build !verif
+
+// Package verifhook provides yield points for deterministic schedule exploration.
+// Without the "verif" build tag every function here is an empty, inlinable no-op.
+package verifhook
+
+// Yield marks a point at which a controlled scheduler may preempt the calling goroutine.
+func Yield(point string) {}
